@@ -31,6 +31,8 @@ def main(tier, seed):
     bins = [("dev", vlib.build_harness("dev")), ("release", vlib.build_harness("release"))]
     profcheck.run_scenarios(rep, "capture", scenarios.capture_scenarios(), bins, PROP)
     profcheck.run_scenarios(rep, "captureorder", scenarios.capture_order_scenarios(), bins, PROP)
+    # which closures outlive the capturing scope (any subset, captured in any order): output and the surviving objects
+    profcheck.run_scenarios(rep, "retention", scenarios.closure_retention_scenarios(), bins, PROP)
     rep.coverage["exhaustive"] = True
     rep.coverage["rule"] = ("programs over <= 2 variable names and 2 function names with blocks, functions, lambdas reading / writing a captured "
                             "variable, calls after scope exit, loops (per-iteration variables, the shared loop variable), shadowing; name "
